@@ -104,6 +104,24 @@ def do_run(sid, tier, props):
     for p, r in results.items():
         print(sid, p, tier, "CAUGHT" if r["exit"] == 1 and r["violation_lines"] else ("BROKEN-CHECK rc=%d" % r["exit"] if r["exit"] not in (0, 1) else "missed"), r["violation_lines"][:1])
 
+def describe_how(r):
+    """short description of what raised the alarm, from the head of the replay file"""
+    h = r.get("replay_head") or ""
+    parts = []
+    m = re.search(r'"no_longer_checks": \{"what": "([^"]+)"(?:, "theorem": "([^"]*)")?', h)
+    kinds = re.findall(r'"what": "([a-z-]+)"', h)
+    if "translator" in kinds: parts.append("translator: source outside the grammar / table changed")
+    if "lean-proof" in kinds:
+        mt = re.search(r'"what": "lean-proof", "theorem": "([^"]*)"', h)
+        parts.append("proof obligation broken%s" % ((" (" + mt.group(1).split("(")[-1].rstrip(")") + ")") if mt and mt.group(1) else ""))
+    if "correspondence" in kinds: parts.append("model and code disagree")
+    mk = re.search(r'"failing_input": \{"kind": "([^"]+)"', h)
+    if mk: parts.append("oracle on the implementation: " + mk.group(1))
+    if "no-failing-input-found" in " ".join(r.get("violation_lines", [])): parts.append("no failing input found")
+    ms = re.search(r'"model_side_search": "([^"]{0,120})', h)
+    if ms and "bad" in ms.group(1): parts.append("model-side history found")
+    return "; ".join(parts)
+
 def do_table():
     rows = ["| id | property | change | manifests when | caught by | how |", "|---|---|---|---|---|---|"]
     for sid in sorted(os.listdir(SEED)):
@@ -117,7 +135,7 @@ def do_table():
             for t, r in tiers.items():
                 if r["exit"] == 1 and r["violation_lines"]:
                     caught.append("%s %s" % (p, t))
-                    if not how: how = r.get("how", "")
+                    if not how: how = describe_how(r)
         rows.append("| %s | %s | %s | %s | %s | %s |" % (sid, meta.get("property"), str(meta.get("title", "")).replace("|", "/")[:140], str(meta.get("manifests_when", "")).replace("|", "/")[:160], ", ".join(caught) or "**missed**", how))
     print("\n".join(rows))
 
